@@ -78,9 +78,14 @@ func maybeReinit(rng *verifsim.RNG, p *Plan, ifn string, from, to int64, prob fl
 func secondInterface(rng *verifsim.RNG, p *Plan) {
 	n := &p.Nodes[0]
 	is, iw := advIface(1)
-	src := n.Config.Interfaces[0]
-	src.Name = is.Name
-	n.Config.Interfaces = append(n.Config.Interfaces, src)
+	if c := &n.Config.Interfaces[0]; len(n.Config.Interfaces) == 1 && c.Name != "" && rng.Bool(0.5) {
+		// one stanza for both: names = ["eth0", "eth1"]
+		c.Names, c.Name = []string{c.Name, is.Name}, ""
+	} else {
+		src := n.Config.Interfaces[0]
+		src.Name = is.Name
+		n.Config.Interfaces = append(n.Config.Interfaces, src)
+	}
 	n.Ifaces = append(n.Ifaces, iw)
 	shift := int64(rng.Dur(0, 2*time.Second)) + 7
 	var extra []Action
@@ -164,4 +169,15 @@ func combosTotal(n, maxLen int) int {
 		t += multichoose(n, l)
 	}
 	return t
+}
+
+// biasQueueFull makes a run favour the state "the advertiser's listener has
+// filled the request queue and waits for room, the scheduler has not run
+// since": the scheduler steps back at every select, the listener never does
+// at its send.
+func biasQueueFull(rng *verifsim.RNG, p *Plan) {
+	if rng.Bool(0.6) {
+		p.Sched = rng.U64() | 1
+		p.Bias = map[string]uint64{"": uint64(rng.Intn(2)), "select@advertise.go": 3, "send@advertise.go": 0, "loop@listener.go": 0}
+	}
 }
